@@ -257,7 +257,8 @@ func c51Link(rt *rapid.T, rec *ev.Rec, w *c51World) {
 		}
 		exp := now + 3600
 		ek := rule.expiresKey()
-		mut := rapid.SampledFrom([]string{"none", "none", "none", "checksum-char", "wrong-secret", "expired-signed", "expiry-edited", "expires-garbled", "no-checksum", "no-expires", "dup-checksum-bad-first", "dup-checksum-good-first", "checksum-padded", "checksum-std-alphabet", "checksum-truncated", "path-edited", "header-edited", "checksum-of-other-rule"}).Draw(rt, "mutation")
+		mut := rapid.SampledFrom([]string{"none", "none", "none", "checksum-char", "wrong-secret", "expired-signed", "expiry-edited", "expires-garbled", "no-checksum", "no-expires", "dup-checksum-bad-first", "dup-checksum-good-first", "checksum-padded", "checksum-std-alphabet", "checksum-truncated", "path-edited", "header-edited", "checksum-of-other-rule",
+			"checksum-last-char", "checksum-last-char", "checksum-ctl-inserted", "checksum-ctl-inserted", "checksum-char-appended", "checksum-one-pad"}).Draw(rt, "mutation")
 		if mut == "expired-signed" {
 			exp = now - 3600
 		}
@@ -315,6 +316,22 @@ func c51Link(rt *rapid.T, rec *ev.Rec, w *c51World) {
 				sum = strings.NewReplacer("-", "%2B", "_", "/").Replace(sum)
 			case "checksum-truncated":
 				sum = sum[:len(sum)-1]
+			case "checksum-last-char":
+				// near miss: every other character of the base64url alphabet in the last position
+				// (the 22nd character carries only 2 digest bits)
+				const alpha = "ABCDEFGHIJKLMNOPQRSTUVWXYZabcdefghijklmnopqrstuvwxyz0123456789-_"
+				c := alpha[rapid.IntRange(0, 63).Draw(rt, "last-char")]
+				if c == sum[len(sum)-1] {
+					c = alpha[(strings.IndexByte(alpha, c)+1)%64]
+				}
+				sum = sum[:len(sum)-1] + string(c)
+			case "checksum-ctl-inserted":
+				pos := rapid.SampledFrom([]int{0, 1, len(sum) / 2, len(sum) - 1, len(sum)}).Draw(rt, "ctl-pos")
+				sum = sum[:pos] + rapid.SampledFrom([]string{"%0A", "%0D", "%0D%0A", "%20", "%09"}).Draw(rt, "ctl") + sum[pos:]
+			case "checksum-char-appended":
+				sum += "A"
+			case "checksum-one-pad":
+				sum += "="
 			}
 			ps := append([][2]string{}, params[:ckPos]...)
 			switch mut {
